@@ -152,8 +152,42 @@ def r10_6(ctx):
             bad = "a path that did not exhaust the input leaves it unadvanced"
         if returns and not inp_empty and g.get("φ(p1).is_empty()") is not True:
             bad = "the loop is left although input remains and the decoder did not report InputEmpty"
-    ctx.ob("R10.6", "decode_to_sink-discipline", bad is None and k >= 8, bad or "%d paths: one error + U+FFFD per Malformed, only the written prefix reinterpreted, input advanced by bytes_read, loop left only on InputEmpty or empty input" % k, "tendril stream decode_to_sink")
+        if returns and not inp_empty and "panic!" not in nfq.names(pc):
+            # encoding_rs: "If decode_* returns InputEmpty, the processing of the stream has ended. Otherwise, the caller must call
+            # decode_* again with last set to true": at the end of the stream only InputEmpty ends the loop
+            notlast = gval(g, "p4") is False or gval(g, "!p4") is True
+            if not notlast:
+                bad = "the loop is left with the input used up but without the decoder having answered InputEmpty, also when `last` is set: what the decoder still holds at the end of the stream (ISO-2022-JP: the byte after an unfinished escape, 'a ESC $' decodes to 'a\ufffd' instead of 'a\ufffd$') is never written"
+    ctx.ob("R10.6", "decode_to_sink-discipline", bad is None and k >= 8, bad or "%d paths: one error + U+FFFD per Malformed, only the written prefix reinterpreted, input advanced by bytes_read, loop left only on InputEmpty, or on empty input when the stream goes on" % k, "tendril stream decode_to_sink")
     ctx.floor("R10.6", "encoding-rs-facts", n + k, 11)
+
+
+def r10_9(ctx):
+    """encoding_rs feature, constructors: `new_from_encoding_rs_decoder(decoder, sink)` decodes with the caller's decoder on every
+    path (its BOM handling and its state are the caller's choice - a UTF-8 decoder with BOM removal or sniffing is not the plain
+    UTF-8 path); `new_encoding_rs(encoding, sink)` uses that encoding's own new decoder unless the encoding is UTF-8"""
+    key, pcs = nfq.cells(ctx, AREA, "stream::LossyDecoder<Sink,A>::new_from_encoding_rs_decoder", exact=True)
+    bad = None
+    n = 0
+    for pc in nfq.feasible(pcs):
+        n += 1
+        if not re.search(r"EncodingRs\(p1,p2\)", str(pc["ret"]).replace(" ", "")):
+            bad = "a path builds %s: the decoder handed in is discarded (under %s) - its BOM handling / sniffing is lost and a leading BOM comes out differently from a one-shot decode with that decoder" % (
+                str(pc["ret"])[:60], [k[:50] for k, v in pc["guards"].items() if v][:2])
+    ctx.ob("R10.9", "constructor-keeps-the-callers-decoder", bad is None and n >= 1, bad or "%d path(s): EncodingRs(decoder, sink)" % n, "tendril stream LossyDecoder::new_from_encoding_rs_decoder")
+    key, pcs = nfq.cells(ctx, AREA, "stream::LossyDecoder<Sink,A>::new_encoding_rs", exact=True)
+    bad = None
+    n = 0
+    for pc in nfq.feasible(pcs):
+        n += 1
+        ret = str(pc["ret"]).replace(" ", "")
+        utf8 = any(v and re.search(r"matches UTF_8$|== UTF_8\)$", k) for k, v in pc["guards"].items())
+        if utf8:
+            if "utf8" not in ret and "Utf8(" not in ret:
+                bad = "UTF-8 is decoded with %s" % ret[:60]
+        elif not re.search(r"EncodingRs\(p1\.new_decoder\(\),p2\)", ret):
+            bad = "encoding other than UTF-8: builds %s, not EncodingRs(encoding.new_decoder(), sink)" % ret[:80]
+    ctx.ob("R10.9", "constructor-uses-the-encodings-decoder", bad is None and n >= 2, bad or "UTF-8 -> Utf8LossyDecoder; any other encoding -> its new_decoder()", "tendril stream LossyDecoder::new_encoding_rs")
 
 
 def r10_7(ctx):
@@ -228,6 +262,8 @@ def run(ctx):
     if ctx.config == "all-features":
         ctx.rule("R10.6", "encoding_rs feature: LossyDecoder flushes with last = true at finish, pairs each error with one U+FFFD, reinterprets only decoder-written UTF-8, advances by bytes_read")
         ctx.guard("R10.6", "encoding_rs", lambda: r10_6(ctx))
+        ctx.rule("R10.9", "encoding_rs constructors: new_from_encoding_rs_decoder keeps the caller's decoder; new_encoding_rs uses the encoding's own decoder")
+        ctx.guard("R10.9", "encoding_rs-constructors", lambda: r10_9(ctx))
     ctx.rule("R10.1", "every U+FFFD sent to the inner sink is immediately preceded by exactly one error() and vice versa (process, finish, completion closure)")
     ctx.rule("R10.2", "reinterpret_without_validating only on the decode-Ok chunk or on subtendril(0, valid_prefix.len())")
     ctx.rule("R10.3", "finish reports a pending incomplete sequence iff one is stored; process stores one only when input ran out")
